@@ -453,6 +453,9 @@ SHAPES_SET = {
     "shq/UnionOfEmpties.1.0.dsdl": "@union\nshq.Empty.1.0 a\nshq.Empty.1.0 b\n@sealed\n",
     "shq/UnionPadMembers.1.0.dsdl": "@union\nshq.PadOnly.1.0 a\nshq.PadOnlyDelim.1.0 b\nshq.Empty.1.0[2] c\n@extent 256\n",
     "shq/HoldsEmpties.1.0.dsdl": "shq.Empty.1.0 a\nshq.Empty.1.0[3] b\nshq.Empty.1.0[<=3] c\nshq.PadOnly.1.0 d\nshq.UnionOfEmpties.1.0 e\n@sealed\n",
+    "shq/OnlyEmpties.1.0.dsdl": "shq.Empty.1.0 a\nshq.Empty.1.0[3] b\n@sealed\n",      # fields, but nothing to serialize
+    "shq/OneEmpty.1.0.dsdl": "shq.Empty.1.0 nothing\n@sealed\n",
+    "shq/SvcOnlyEmpties.1.0.dsdl": "shq.Empty.1.0 a\n@sealed\n---\nshq.OnlyEmpties.1.0 b\nshq.Empty.1.0[2] c\n@sealed\n",
     "shq/OnlyNested.1.0.dsdl": "shq.FloatConstOnly.1.0 a\nshq.BoolFieldOnly.1.0[<=2] b\n@extent 64\n",
     "shq/ByteArrays.1.0.dsdl": "uint8[0] z0\nuint8[<=0] z1\nbyte[<=1] b\nutf8[<=1] s\n@sealed\n" if False else "byte[<=1] b\nutf8[<=1] s\nuint8[1] one\n@sealed\n",
     # the only integers are byte / utf8 (sub-kinds of the unsigned integer); fixed arrays of bits and of something else side by side
